@@ -176,7 +176,9 @@ void ascon_random_feed
  * \param storage The non-volatile storage region to use to save the seed.
  * The seed is saved at offset zero within the region.
  *
- * \param Zero if the seed was saved, or -1 if non-volatile storage failed.
+ * \return Non-zero if the seed was saved, zero if writing to non-volatile
+ * storage failed, or -1 if the parameters are invalid (\a state or
+ * \a storage is NULL or the storage region is too small to hold a seed).
  *
  * This function and the companion function ascon_random_load_seed() can be
  * used to preserve some entropy across power restarts, especially on systems
@@ -199,7 +201,9 @@ int ascon_random_save_seed
  * \param storage The non-volatile storage region to use to load the seed.
  * The seed is loaded from offset zero within the region.
  *
- * \param Zero if the seed was loaded, or -1 if non-volatile storage failed.
+ * \return Non-zero if the seed was loaded, zero if reading from non-volatile
+ * storage failed, or -1 if the parameters are invalid (\a state or
+ * \a storage is NULL or the storage region is too small to hold a seed).
  *
  * The seed value in non-volatile storage is ASCON_RANDOM_SAVED_SEED_SIZE
  * bytes in size.  If no seed was previously saved, then whatever rubbish
